@@ -554,6 +554,11 @@ func (h *hist) nextTx(t *rapid.T) (txSpec, bool) {
 			if rep {
 				msg.Repeated, msg.RepeatedFrequency, msg.RepeatedTotal = true, uint64(msg.Timeout)+uint64(rapid.IntRange(0, 4).Draw(t, "freq")), int64(rapid.IntRange(1, 5).Draw(t, "total"))
 			}
+			if !rep && rapid.IntRange(0, 3).Draw(t, "junkrepeat") == 0 {
+				// a one-shot call may carry values in the fields that only matter for repeated calls
+				msg.RepeatedFrequency = uint64(rapid.SampledFrom([]int{0, 1, 3, 8}).Draw(t, "junkfreq"))
+				msg.RepeatedTotal = int64(rapid.SampledFrom([]int{-1, 2, 5}).Draw(t, "junktotal"))
+			}
 			// several contexts of one consumer created in one transaction: their first batches fall due together
 			msgs := []sdk.Msg{msg}
 			for k := rapid.SampledFrom([]int{0, 0, 1, 2, 3}).Draw(t, "morecalls"); k > 0; k-- {
